@@ -155,18 +155,47 @@ def merge(per_thread, schedule, t0=0x10000001, dts=None, tsmode=None):
     """The scheduler: step i lets runnable[schedule[i] % len(runnable)] emit its next record; an exhausted schedule
     means choice 0 (the lowest-indexed runnable thread runs on).  Returns the merged record list with timestamps
     ('ts') and the index of the emitting thread ('th')."""
-    pos = [0] * len(per_thread)
+    n = len(per_thread)
+    pos = [0] * n
     out = []
     ts = t0
     step = 0
-    while True:
-        runnable = [i for i in range(len(per_thread)) if pos[i] < len(per_thread[i])]
-        if not runnable:
-            break
+    # the runnable set as a Fenwick tree over thread indices: 'the k-th runnable thread' in O(log n), so that tens of
+    # thousands of threads merge in reasonable time (same semantics as indexing the sorted list of runnable threads)
+    size = 1
+    while size < n + 1:
+        size <<= 1
+    tree = [0] * (size + 1)
+    count = 0
+
+    def add(i, d):
+        i += 1
+        while i <= size:
+            tree[i] += d
+            i += i & -i
+    for i in range(n):
+        if per_thread[i]:
+            add(i, 1)
+            count += 1
+
+    def kth(k):          # 0-based
+        idx = 0
+        bit = size
+        while bit:
+            nxt = idx + bit
+            if nxt <= size and tree[nxt] <= k:
+                idx = nxt
+                k -= tree[nxt]
+            bit >>= 1
+        return idx
+    while count:
         c = schedule[step] if step < len(schedule) else 0
-        who = runnable[c % len(runnable)]
+        who = kth(c % count)
         rec = dict(per_thread[who][pos[who]])
         pos[who] += 1
+        if pos[who] >= len(per_thread[who]):
+            add(who, -1)
+            count -= 1
         rec['ts'] = ts
         rec['th'] = who
         out.append(rec)
